@@ -501,3 +501,46 @@ func UnQuery(tok []string) (def.TaskQueryParam, error) {
 
 // SetStr assigns a string to a value of any string-kinded type (the matcher type names are unexported).
 func SetStr[T ~string](dst *T, s string) { *dst = T(s) }
+
+// UnTask decodes the 13 tokens written by Task.
+func UnTask(tok []string) (def.Task, error) {
+	var t def.Task
+	if len(tok) < 13 {
+		return t, fmt.Errorf("task needs 13 tokens")
+	}
+	var err error
+	fail := func(e error) bool {
+		if e != nil && err == nil {
+			err = e
+		}
+		return e != nil
+	}
+	var e error
+	t.Id, e = UnStr(tok[0])
+	fail(e)
+	t.WorkId, e = UnStr(tok[1])
+	fail(e)
+	t.Priority, e = strconv.Atoi(tok[2])
+	fail(e)
+	t.State = def.State(tok[3])
+	t.Err, e = UnStr(tok[4])
+	fail(e)
+	t.Param, e = UnMap(tok[5])
+	fail(e)
+	t.Meta, e = UnMap(tok[6])
+	fail(e)
+	t.ScheduledAt, e = UnTime(tok[7])
+	fail(e)
+	t.CreatedAt, e = UnTime(tok[8])
+	fail(e)
+	opt := func(s string) option.Option[time.Time] {
+		if s == "-" {
+			return option.None[time.Time]()
+		}
+		v, e := UnTime(s)
+		fail(e)
+		return option.Some(v)
+	}
+	t.Deadline, t.CancelledAt, t.DispatchedAt, t.DoneAt = opt(tok[9]), opt(tok[10]), opt(tok[11]), opt(tok[12])
+	return t, err
+}
